@@ -12,7 +12,7 @@ func (e *Engine) lemmaObligations(id string) []*Obligation {
 		if !a.Lemma || !hasProp(a.Props, id) || a.ByFunc != "" {
 			continue
 		}
-		o := &Obligation{Name: "lemma/" + a.Name, Func: "lemma", Kind: "lemma", Goal: a.term, Props: a.Props, Groups: map[string]bool{a.Group: true}}
+		o := &Obligation{Name: "lemma/" + a.Name, Func: "lemma", Kind: "lemma", Goal: a.term, Props: a.Props, Groups: map[string]bool{a.Group: true}, MinTimeout: 40}
 		if len(a.From) > 0 {
 			o.Groups = map[string]bool{}
 			for _, g := range a.From {
@@ -110,7 +110,7 @@ func (e *Engine) heapSortFromID(id string) string {
 	switch {
 	case id == allocHeap:
 		so = "(Array Int Bool)"
-	case id == "gh:$iofail", id == lockCount, id == "gh:$spawned":
+	case id == "gh:$iofail", id == lockCount, id == "gh:$spawned", id == "gh:$dynalloc":
 		so = "Int"
 	case id == "gh:$visited":
 		so = "(Array Iface Bool)"
